@@ -4,5 +4,5 @@ CONSTANTS
   MaxOps = 3
   SetupFaults = FALSE
   WorldNames = {"W0", "W1", "W2", "W3"}
-INVARIANTS TypeOK FailureRestores FailureProfiles ActiveMatch ReloadMatch ProfilesMatch RepoSane StrictFailureRestores StrictActiveMatch StrictReloadMatch
+INVARIANTS TypeOK FailureRestores FailureProfiles ActiveMatch ReloadMatch ProfilesMatch RepoSane
 CHECK_DEADLOCK FALSE
